@@ -212,11 +212,8 @@ def main(argv=None):
             dist['segments'] += 1
             cs = S.case_of(text, v, S.STRICT, ec)
             ct = S.case_of(text, v, S.TOLERANT, ec)
-            # values the factory re-formats or length-checks as numbers are C13's model, not Model/Leaf.v's
-            if '+2' not in text:
-                if cs['code'] != 30 and '1' * 17 not in text and '12345' not in text:
-                    cases.append(cs)
-                cases.append(ct)
+            cases.append(cs)      # the segment model uses Model/LeafFull.v: datatype factories of C13 included
+            cases.append(ct)
             if cs['code'] != 0:
                 dist['strict_rejected'] += 1
                 continue
